@@ -151,6 +151,7 @@ func (r *Run) genForwChain(depth int, m dhcpv6.DHCPv6, w []byte) (dhcpv6.DHCPv6,
 	// the hop count is a header octet each relay sets; usually the number of relays below it, but relays that do not
 	// count (all zero), count from one, or carry anything at all are on real networks, and nothing may depend on it
 	hopMode := r.Pick(0, 0, 0, 1, 2, 3)
+	mixedTypes := r.Rng.Intn(4) == 0
 	for i := 0; i < depth; i++ {
 		lv := chainLevel{link: r.Addr16(), peer: r.Addr16(), t: 12, hop: byte(i)}
 		switch hopMode {
@@ -161,7 +162,12 @@ func (r *Run) genForwChain(depth int, m dhcpv6.DHCPv6, w []byte) (dhcpv6.DHCPv6,
 		case 3:
 			lv.hop = byte(r.n8())
 		}
-		rm := &dhcpv6.RelayMessage{MessageType: 12, HopCount: lv.hop, LinkAddr: net.IP(lv.link), PeerAddr: net.IP(lv.peer)}
+		// a level below the top may be typed Relay-reply (chains assembled by hand, or captured on the way back): the
+		// decoder, the decapsulation helpers and the reply builder walk such chains like any other
+		if i < depth-1 && mixedTypes && r.Rng.Intn(3) == 0 {
+			lv.t = 13
+		}
+		rm := &dhcpv6.RelayMessage{MessageType: dhcpv6.MessageType(lv.t), HopCount: lv.hop, LinkAddr: net.IP(lv.link), PeerAddr: net.IP(lv.peer)}
 		var ow []byte
 		order := r.Rng.Intn(2)
 		addIID := func() {
@@ -197,7 +203,7 @@ func (r *Run) genForwChain(depth int, m dhcpv6.DHCPv6, w []byte) (dhcpv6.DHCPv6,
 			addIID()
 		}
 		addRID()
-		m, w = rm, append(append(append([]byte{12, lv.hop}, lv.link...), lv.peer...), ow...)
+		m, w = rm, append(append(append([]byte{lv.t, lv.hop}, lv.link...), lv.peer...), ow...)
 		lvs = append([]chainLevel{lv}, lvs...) // outermost first
 	}
 	return m, w, lvs
